@@ -24,7 +24,8 @@ RULE = ("a case is one array from dtypes {bool, (u)int8-64, float16-64, complex,
         "{ndarray, np.matrix, user subclasses, memmap-backed}, alone or nested in containers with other arrays, x (A) "
         "compressor / level / protocol / target round trips, (B) mmap modes r, r+, c, w+, (C) loky / multiprocessing workers "
         "with max_nbytes in {None, size-1, size, size+1, '1K', 0}; distinct_nontrivial counts distinct (dtype, shape, layout, "
-        "subclass, scenario parameters) with a non-empty array")
+        "subclass, scenario parameters) with a non-empty array"
+        " Containers include one array referenced three times; worker runs include mmap_mode=None.")
 ASSUMPTIONS = [
     "exact dtype (incl. byte order) is asserted with ensure_native_byte_order=False; the default load normalises byte order by documented design",
     "F-contiguous inputs stay F, C-contiguous stay C; non-contiguous inputs only need equal values",
